@@ -82,6 +82,24 @@ pub fn run(o: &Opts) -> i32 {
             emit(BigInt::from(dig) * Pow::pow(&b, k), BigInt::one(), base, *rng.pick(&["sci", "eng"]), 0, &mut rng);
         }
     }
+    // 1c. a non-recurring prefix of L digits followed by a short period, L around every digit budget
+    //     (6 and 7 significant digits in the default / scientific modes, k in `digits k`)
+    for _ in 0..(300 * scale) {
+        let base = if rng.chance(1, 2) { 10 } else { 2 + rng.below(35) as u8 };
+        let b = BigInt::from(base);
+        let l = 3 + rng.below(9) as u32;
+        let m = 1 + rng.below(3) as u32;
+        let pfx = BigInt::from(rng.next() >> 8) % Pow::pow(&b, l);
+        let bm1 = Pow::pow(&b, m) - BigInt::one();
+        let r = BigInt::from(1 + rng.below(1000)) % &bm1;
+        // (pfx + r / (b^m - 1)) / b^(l - s), with s digits of the prefix before the radix point
+        let s_int = rng.below(3) as u32;
+        let n = &pfx * &bm1 + &r;
+        let d = &bm1 * Pow::pow(&b, l.saturating_sub(s_int));
+        let mode = *rng.pick(&["default", "default", "sci", "eng", "digits", "digits"]);
+        let k = if rng.chance(1, 2) { (l as u64).saturating_sub(s_int as u64) } else { rng.below(12) };
+        emit(if rng.chance(1, 5) { -n } else { n }, d, base, mode, k, &mut rng);
+    }
     // 2. denominators with short / long / huge recurring periods
     let dens: [u64; 14] = [3, 7, 9, 11, 13, 27, 37, 41, 97, 101, 239, 3937, 99991, 2305843009213693951];
     for _ in 0..(400 * scale) {
